@@ -1,6 +1,7 @@
 import DriverLib.Ops
 import DriverLib.ShapeOps
 import DriverLib.IndexOps
+import DriverLib.ReduceOps
 open Lean
 namespace Drv
 open Gonnx
@@ -20,6 +21,7 @@ def runOp (op : String) (attrs : Json) (ins : List (Option DT)) : Answer :=
     else if isShapeOp op then runShapeOp op attrs ins
     else if isIndexOp op then runIndexOp op attrs ins
     else if op == "Concat" then runConcat attrs ins
+    else if isReduceOp op then runReduceOp op attrs ins
     else { model := { status := "unmodelled" } }
 
 end Drv
